@@ -42,8 +42,9 @@ def strategy(tier):
     asyncc = st.builds(lambda spas, f, t, j, s: {"k": "async", "spas": spas, "filter": f, "target": t, "jitter": j, "suspend": s},
                        st.lists(spa, max_size=6, unique_by=lambda s: s[0]), flt, st.integers(0, 5), jitter,
                        st.lists(st.sampled_from([0.0, 0.0, 0.3, 0.6, 1.5]), max_size=4))
-    sync = st.builds(lambda seq: {"k": "sync", "seq": seq},
-                     st.lists(st.tuples(st.integers(0, 5), st.sampled_from(NAMES)).map(list), min_size=1, max_size=10))
+    find = st.one_of(st.none(), st.tuples(st.just("id"), st.integers(0, 6), st.sampled_from(["str", "bytes"])).map(list), st.just(["ip"]))
+    sync = st.builds(lambda seq, f: dict({"k": "sync", "seq": seq}, **({"find": f} if f else {})),
+                     st.lists(st.tuples(st.integers(0, 5), st.sampled_from(NAMES)).map(list), min_size=1, max_size=10), find)
     return st.one_of(asyncc, asyncc, asyncc, sync)
 
 
@@ -116,7 +117,9 @@ def _run_async(res, case):
     W.run(main)
     t0, t1 = out["t0"], out["t1"]
     dur = t1 - t0
-    tol = 2 * (vworld.POLL + J) + out["susp"] + 0.01
+    # two polling intervals (hello consumer, discovery loop) + the time the client's handler was suspended; every one of
+    # those sleeps is a timer, so each may be late by the jitter bound
+    tol = 2 * (vworld.POLL + J) + out["susp"] + J * len(case.get("suspend", [])) + 0.01
     init_to, disc_to = 4.0, 10.0
     # deliveries to the locator endpoint: (time, identifier)
     # The hello consumer takes at most one datagram per polling interval, so a reply becomes
@@ -203,11 +206,19 @@ def _run_sync(res, case):
     from geckolib.driver import GeckoHelloProtocolHandler
     from geckolib.locator import GeckoLocator
 
-    loc = GeckoLocator("uuid")
+    find = case.get("find")
+    kw, want_id = {}, None
+    if find and find[0] == "id":
+        want_id = _ident(int(find[1]))
+        kw["spa_to_find"] = want_id if find[2] == "bytes" else want_id.decode("latin-1")
+    elif find and find[0] == "ip":
+        kw["static_ip"] = "10.0.0.50"
+    loc = GeckoLocator("uuid", **kw)
     found = []
     loc._on_found = found.append
     h = GeckoHelloProtocolHandler.broadcast(on_handled=loc._on_discovered)
     expect = {}
+    answered = set()
     for n, name in case["seq"]:
         try:
             nb = name.encode("latin-1")
@@ -220,6 +231,14 @@ def _run_sync(res, case):
             expect[sid] = (name, sender)
         h.handle(dg, sender)
         h.handled(sender)
+        answered.add(sid)
+        # the blocking discovery loop returns as soon as this flag is set: it must be set exactly when the requested spa
+        # (or, with a static address, any spa) has answered - another spa's reply must not end the search
+        want_flag = (want_id in answered) if want_id is not None else (bool(answered) if find else False)
+        if bool(loc._has_found_spa) != want_flag:
+            res.fail(f"C15|sync-locator-found-flag|{'early' if loc._has_found_spa else 'missed'}",
+                     f"threaded locator looking for {kw}: after replies from {sorted(answered)} the found flag is {loc._has_found_spa}")
+            break
     got = [(d.identifier, d.name, (d.ipaddress, d.port)) for d in loc.spas]
     want = [(sid, nm, snd) for sid, (nm, snd) in expect.items()]
     if got != want:
